@@ -938,6 +938,10 @@ class SymNP:
         return (SArr(idx, int),)
 
     @staticmethod
+    def flatnonzero(a):
+        return SymNP.where(SymNP.asarray(a))[0]
+
+    @staticmethod
     def logical_and(a, b):
         return SymNP.asarray(a) & b
 
@@ -1178,6 +1182,10 @@ SymNP.invert = staticmethod(_np_invert)
 
 def _allclose(a, b, rtol=1e-05, atol=1e-08, equal_nan=False):
     from .symx import toreal
+    if hasattr(a, "__symarray__"):
+        a = a.__symarray__()
+    if hasattr(b, "__symarray__"):
+        b = b.__symarray__()
     al = list(a) if _ndim(a) else [a]
     bl = list(b) if _ndim(b) else [b]
     if len(al) != len(bl):
@@ -1191,6 +1199,9 @@ def _allclose(a, b, rtol=1e-05, atol=1e-08, equal_nan=False):
     for x, y in zip(al, bl):
         if _ndim(x) or _ndim(y):
             conds.append(tobool(_asb(_allclose(x, y, rtol, atol))))
+            continue
+        if isinstance(x, Tok) or isinstance(y, Tok):
+            conds.append(z3.BoolVal(bool(x == y)))
             continue
         xe, ye = toreal(_num(x)), toreal(_num(y))
         d = xe - ye
